@@ -358,6 +358,90 @@ def _shadow_replay(case):
     return core.result(v)
 
 
+def _shadow_interleaved_case(parents, pair):
+    """lookup / register / lookup histories: the classes are created one at a time and after EVERY
+    creation every query (root and each existing class, the shared alias and each unique alias) is
+    made, so a resolution computed before a later registration is exercised again after it."""
+    i, j = pair
+    root = _fresh_root()
+    classes = []
+    viol = []
+    seen = set()
+    evals = nt = 0
+    # queries before any class exists
+    r = computers.call(root.from_alias, "x")
+    evals += 1
+    if not (r[0] == "exc" and r[1] == "ValueError"):
+        viol.append(core.violation(dict(what="unknown_alias", family="private", kind="before_creation",
+                                        got=("instance" if r[0] == "ok" else r[1])),
+                                   "alias 'x' resolved before any class carried it: %s" % _show(r),
+                                   dict(parents=parents, pair=[i, j], interleaved=True)))
+    for step, p in enumerate(parents):
+        base = root if p == -1 else classes[p]
+        aliases = {"u%d" % step}
+        if step in pair:
+            aliases.add("x")
+        classes.append(type("K%d" % step, (base,), {"aliases": aliases}))
+        existing = [c for c in (i, j) if c <= step]
+        for qi in [-1] + list(range(step + 1)):
+            q = root if qi == -1 else classes[qi]
+            cand = [c for c in existing if qi == -1 or qi in _chain(parents, c)]
+            evals += 1
+            r = computers.call(q.from_alias, "x")
+            case = dict(parents=parents, pair=[i, j], interleaved=True)
+            if not cand:
+                ok = r[0] == "exc" and r[1] == "ValueError"
+                tags = dict(what="unknown_alias", family="private", kind="interleaved",
+                            got=("instance" if r[0] == "ok" else r[1]))
+            else:
+                want = classes[max(cand)]
+                nt += int(len(cand) == 2)
+                ok = r[0] == "ok" and type(r[1]) is want
+                tags = dict(what="shadowing", interleaved=True,
+                            stale_after_registration=bool(r[0] == "ok" and len(cand) == 2
+                                                          and type(r[1]) is classes[min(cand)]),
+                            later_is_descendant_of_earlier_sibling=bool(
+                                len(cand) == 2 and _later_desc_of_earlier_sibling(parents, i, j)))
+            if not ok and core.sig_hash(tags) not in seen:
+                seen.add(core.sig_hash(tags))
+                viol.append(core.violation(
+                    tags, "after creating K0..K%d (parents %r, K%d/K%d share 'x', queries made after every "
+                    "creation): %s.from_alias('x') gave %s" % (
+                        step, parents[:step + 1], i, j, "root" if qi == -1 else "K%d" % qi, _show(r)), case))
+        for c in range(step + 1):
+            evals += 1
+            r = computers.call(root.from_alias, "u%d" % c)
+            if not (r[0] == "ok" and type(r[1]) is classes[c]):
+                tags = dict(what="registry", family="private", aspect="wrong_class", interleaved=True)
+                if core.sig_hash(tags) not in seen:
+                    seen.add(core.sig_hash(tags))
+                    viol.append(core.violation(tags, "unique alias u%d gave %s after step %d" % (
+                        c, _show(r), step), dict(parents=parents, pair=[i, j], interleaved=True)))
+    return viol, evals, nt
+
+
+def _shadow_interleaved_point(parents):
+    viol = []
+    seen = set()
+    evals = nt = 0
+    for pair in itertools.combinations(range(len(parents)), 2):
+        v, e, n = _shadow_interleaved_case(parents, pair)
+        evals += e
+        nt += n
+        for x in v:
+            h = core.sig_hash(x["tags"])
+            if h not in seen:
+                seen.add(h)
+                viol.append(x)
+    return core.result(viol, evals=evals, nontrivial_count=nt, obs=[len(parents), len(viol) == 0],
+                       sample=dict(parents=parents, queries_after_every_creation=True))
+
+
+def _shadow_interleaved_replay(case):
+    v, _, _ = _shadow_interleaved_case(case["parents"], tuple(case["pair"]))
+    return core.result(v)
+
+
 # ---------------------------------------------------------------- from_arg
 
 MAPPING_TYPES = ("dict", "OrderedDict", "MappingProxyType")
@@ -762,6 +846,14 @@ def subchecks(tier, seed):
             "(ValueError if neither is inside); non-trivial = both classes are inside" % kmax,
             axes=dict(k=list(range(1, kmax + 1)), shapes=len(shapes)),
             replay=_shadow_replay),
+        core.SubCheck(
+            "shadowing_interleaved", [p for k in range(1, kmax) for p in _shapes(k)],
+            _shadow_interleaved_point,
+            "lookup/register/lookup histories: the same trees (k <= %d) are created ONE CLASS AT A TIME and "
+            "after every creation every query (root and every existing class; shared and unique aliases) "
+            "is repeated, so a resolution made before a later registration must be superseded by it; "
+            "non-trivial = both classes of the pair exist and are inside the queried sub-tree" % (kmax - 1),
+            axes=dict(k=list(range(1, kmax))), replay=_shadow_interleaved_replay),
         core.SubCheck(
             "from_arg", fa_pts, _from_arg_point,
             "alias_factory_subclass_from_arg over (private family with constructors accepting `name` | "
